@@ -992,3 +992,41 @@ def rule_A1(F, R):
                     R.violation("A1", subj, "cache-eviction:partial-drain", "a drain() of the write cache is cut short by %s: drain removes every entry, but only the ones iterated are written back" % names[0].split("::")[-1], where(qb, i))
     R.info("A1", "bulk removals from the write cache examined: %d" % nb)
     R.extra["exhaustive"] = True
+
+
+def rule_R6(F, R):
+    R.begin("R6", "Replica::sync: once the TaskDb sync has succeeded, every successful return has rebuilt the working set (unconditionally: a sync that exchanged nothing may be the repeat of one that was interrupted after its transaction committed and before the rebuild)")
+    from tc.util import error_blocks
+    rb = find_rebuild(F)
+    if rb is None:
+        R.missing("R6", "the working-set rebuild function")
+        return
+    rebuild_owner = rb["owner_fn"] if rb.get("owner_fn") else rb["path"]
+    # the replica method(s) that run the TaskDb sync: Replica methods whose body calls a taskdb function that reaches Server::add_version
+    n = 0
+    for p, b in sorted(F.bodies.items()):
+        im = b.get("impl") or {}
+        if b["kind"] != "AssocFn" or not im.get("self", "").startswith("replica::Replica<") or im.get("trait"):
+            continue
+        body = F.real_body(p)
+        if body is None:
+            continue
+        c = cfg_of(body)
+
+        def reaches(n_, pred):
+            if n_ not in F.bodies:
+                return False
+            return any(pred(t) for q in F.reachable_from([n_]) for (_i, t) in F.calls_in.get(q, ()))
+        syncs = [(i, t) for (i, t) in c.calls() if any(x.startswith("taskdb::") and reaches(x, lambda t2: any(y.endswith("server::types::Server::add_version") for y in call_names(t2))) for x in call_names(t))]
+        if not syncs:
+            continue
+        n += 1
+        rebuilds = {i for (i, t) in c.calls() if any((x in F.bodies) and (F.owner(x) == rebuild_owner or rebuild_owner in {F.owner(q) for q in F.reachable_from([x])}) for x in call_names(t))}
+        errs = error_blocks(c)
+        for (i, t) in syncs:
+            r = c.reachable_after(i, removed=rebuilds | errs)
+            if any(k in r for k in c.exits()):
+                R.violation("R6", p, "sync-without-rebuild", "Replica::sync can return successfully without rebuilding the working set: pending tasks pulled by a sync whose rebuild was interrupted never enter the working set, because the repeated sync finds nothing to exchange", where(body, i))
+            else:
+                R.ok("R6", "every successful return of the replica's sync has rebuilt the working set", where(body, i))
+    R.floor("R6", "Replica methods that run the TaskDb sync", n, 1)
